@@ -82,8 +82,8 @@ MIN_EVALS = {
 }
 ASSUMPTIONS = [
     'the wavefront samples (W in waves, intensity) come from a separately constructed optiland Wavefront with the same '
-    'sampling (C09 checks W itself); only pupils whose samples are all finite with intensity > 0 are decided (lenses '
-    'have no physical apertures or coatings), others are counted and skipped',
+    'sampling (C09 checks W itself); pupils cut off by a physical aperture (dark samples, intensity 0) are decided in the PSF family when at least 8 % '
+    'of the samples are lit; the MTF and geometric families use lenses without physical apertures',
     'the statement does not define the pupil amplitude in terms of ray intensity: amplitude = sqrt(intensity) (physical) '
     'and amplitude = intensity/mean (the library\'s documented `.pupils`) are both accepted when the intensity is not '
     'uniform over the pupil (absorbing catalogue glasses); the evidence classes amplitude-law-* record which one fitted',
@@ -309,8 +309,23 @@ def gen_case(rng, tier, i):
         which, p = random_perfect(rng)
         return dict(kind='perfect', family='all', which=which, params=p, N=N, grid=grid, points=[[0.0, p['wl']]],
                     geo=geo, view_psf=bool(rng.random() < 0.2))
+    if family == 'psf' and rng.random() < 0.12:
+        # a perfect system behind a central obscuration (telescope with a secondary): still Strehl 1, peak 100
+        epd = round(float(rng.uniform(5.0, 30.0)), 3)
+        p = dict(f=round(epd * float(rng.uniform(3.0, 12.0)), 3), epd=epd, wl=round(float(rng.uniform(0.45, 0.7)), 4))
+        return dict(kind='perfect', family='psf', which='paraboloid', params=p, N=N, grid=grid, points=[[0.0, p['wl']]], geo=geo,
+                    view_psf=False, clip=[1, dict(r_max='inf', r_min=round(float(rng.uniform(0.15, 0.6)) * epd / 2, 4))])
     spec, info = gen_relay(rng) if rng.random() < 0.05 else gen_lens(rng)
     fno = working_fno(spec)[0]
+    clip = None
+    if family == 'psf' and rng.random() < 0.3:
+        # a physical aperture that cuts off part of the beam (rim or central obscuration) at one of the surfaces
+        _, _, ya_, _ = working_fno(spec)
+        k = int(rng.integers(1, len(spec['surfaces'])))
+        h = abs(float(ya_[min(k - 1, len(ya_) - 1)]))
+        if h > 0:
+            clip = [k, (dict(r_max=round(h * float(rng.uniform(0.45, 0.95)), 6)) if rng.random() < 0.6 else
+                        dict(r_max='inf', r_min=round(h * float(rng.uniform(0.2, 0.7)), 6)))]
     dw = 0.0
     if rng.random() < 0.5:                                 # defocus, 0.05 .. 30 waves (log-uniform), either sign
         dw = float(L.loguniform(rng, 0.05, 30.0)) * (1 if rng.random() < 0.5 else -1)
@@ -318,7 +333,7 @@ def gen_case(rng, tier, i):
         spec['surfaces'][-2]['t'] = round(spec['surfaces'][-2]['t'] + 8.0 * wl * 1e-3 * fno * fno * dw, 9)
     pts = lens_points(spec, rng, budget_points(tier, grid, family))
     return dict(kind='random', family=family, spec=spec, info=info, N=N, grid=grid, points=pts, defocus_waves=dw,
-                geo=geo, view_psf=bool(rng.random() < 0.15))
+                geo=geo, view_psf=bool(rng.random() < 0.15), **(dict(clip=clip) if clip else {}))
 
 
 # ---------------------------------------------------------------------------
@@ -411,15 +426,24 @@ def sample_pupil(lens, hy, wl, N, rec):
     wf = Wavefront(lens, fields=[(0.0, hy)], wavelengths=[wl], num_rays=N, distribution='uniform')
     W = np.array(wf.data[0][0][0], dtype=float).ravel()
     I = np.array(wf.data[0][0][1], dtype=float).ravel()
-    if not (np.all(np.isfinite(W)) and np.all(np.isfinite(I))):
+    if not np.all(np.isfinite(I)) or I.size == 0 or np.any(I < 0):
         rec.cls('pupil-non-finite-skipped')
         return None
-    if I.size == 0 or not np.all(I > 0):
-        rec.cls('pupil-vignetted-skipped')
+    lit = I > 0
+    if not np.all(np.isfinite(W[lit])):
+        rec.cls('pupil-non-finite-skipped')
         return None
-    uniform = bool(np.all(np.abs(I - I[0]) <= 1e-14 * I[0]))
+    if not lit.all():
+        # part of the pupil is cut off by a physical aperture (dark samples carry no amplitude): decided like any other
+        # pupil - the statement's normalisation refers to the unaberrated pupil of the same amplitude
+        if lit.mean() < 0.08:
+            rec.cls('pupil-almost-dark-skipped')
+            return None
+        rec.cls('pupil-vignetted', 'pupil-lit-' + ('<30%' if lit.mean() < 0.3 else '30-70%' if lit.mean() < 0.7 else '>70%'))
+    I0 = I[lit][0]
+    uniform = bool(np.all(np.abs(I[lit] - I0) <= 1e-14 * I0))
     P, A, mask = D.pupil_from_samples(W, I, N)
-    pv = float(W.max() - W.min())
+    pv = float(W[lit].max() - W[lit].min())
     rec.cls('aberration-pv-' + ('<0.01' if pv < 0.01 else '0.01-1' if pv < 1 else '1-10' if pv < 10 else
                                 '10-40' if pv <= 40 else '>40'))
     pup = dict(P=P, A=A, W=W, pv=pv, nin=int(mask.sum()), law='sqrt-intensity', uniform=uniform)
@@ -723,10 +747,18 @@ def check_case(case, rec):
         rec.cls('sample')
     elif case['kind'] == 'perfect':
         spec = perfect_spec(case['which'], case['params'])
+        if case.get('clip'):
+            spec['surfaces'][case['clip'][0] - 1]['aperture'] = dict(case['clip'][1])
+            rec.cls('physical-aperture-clips-pupil')
         lens = L.build(spec)
         rec.cls('perfect-' + case['which'])
     else:
         spec = case['spec']
+        if case.get('clip'):
+            import copy
+            spec = copy.deepcopy(spec)
+            spec['surfaces'][case['clip'][0] - 1]['aperture'] = dict(case['clip'][1])
+            rec.cls('physical-aperture-clips-pupil')
         lens = L.build(spec)
         dw = abs(case.get('defocus_waves', 0.0))
         rec.cls('defocus-none' if dw == 0 else 'defocus-<1' if dw < 1 else 'defocus-1-10' if dw < 10 else 'defocus-10-30')
